@@ -141,6 +141,15 @@ def run(ctx, R, tier):
     R.check(ok, "C20-R1", "index-page|filtered-by-pattern", "the index page lists only names matching the expose pattern", rh.loc(),
             "the index page lists objects without applying pyro_app.ns_regex")
 
+    from ..report import Rules
+    from . import c14
+    R14 = Rules("C14")
+    c14.run(ctx, R14, tier)
+    for o in R14.obs:
+        if o.key == "C14-R8|NameServer.list|literal-matching":
+            R.add("C20-R1", "index-page|listing-anchored-like-the-gate", "the name server applies the expose pattern to the listing with match(), as the gateway's own check does", o.ok, o.loc,
+                  o.detail or "")
+
     # ---------------------------------------------------------------- R2
     def reaches_sink(fn, seen=None):
         seen = seen if seen is not None else set()
